@@ -103,8 +103,11 @@ def corpus_rejections(chk, seed, tier):
         try:
             derive_errors = corpus.build()
         except C.Inconclusive as e:
-            chk.note_inconclusive(str(e)[:800])
-            continue
+            derive_errors = getattr(e, "derive_errors", None)
+            if not derive_errors:
+                chk.note_inconclusive(str(e)[:800])
+                continue
+            # so many items are rejected that the corpus never builds: the rejections themselves are the result
         n = sum(len(g.items) for g in corpus.gens)
         chk.add_eval(n)
         chk.coverage_extra.setdefault("corpus_items_compiled", {})[name] = n
@@ -130,7 +133,12 @@ def corpus_rejections(chk, seed, tier):
     tg.doc_groups(40 if tier == "quick" else 300)
     corpus = Corpus("c16text", [tg.finish()], entry_ctor="ts")
     try:
-        rejected = corpus.build()
+        try:
+            rejected = corpus.build()
+        except C.Inconclusive as e:
+            rejected = getattr(e, "derive_errors", None)
+            if not rejected:
+                raise
         chk.add_eval(len(tg.items))
         chk.coverage_extra.setdefault("corpus_items_compiled", {})["text"] = len(tg.items)
         seen = set()
